@@ -3,6 +3,7 @@ package vc
 // Symbolic values, sorts, type keys.
 
 import (
+	"regexp"
 	"fmt"
 	"go/types"
 	"strings"
@@ -216,8 +217,21 @@ func sanitize(s string) string {
 }
 
 // typeKey is the stable name of a type used in heap keys.
+var aliasRe = regexp.MustCompile(`\b(byte|rune)\b`)
+
+// typeKey names a type for heap keys; the predeclared aliases are folded into the types they stand for
+// ([]byte and []uint8 are the same memory).
 func typeKey(t types.Type) string {
-	return sanitize(types.TypeString(t, nil))
+	s := types.TypeString(t, nil)
+	if strings.Contains(s, "byte") || strings.Contains(s, "rune") {
+		s = aliasRe.ReplaceAllStringFunc(s, func(m string) string {
+			if m == "byte" {
+				return "uint8"
+			}
+			return "int32"
+		})
+	}
+	return sanitize(s)
 }
 
 func deref(t types.Type) types.Type {
